@@ -7,6 +7,16 @@ CLAIMED = {
    note="Trusted: Lean kernel; SECDED contract as stated in Props/C15.lean; LiteX's ecc.py helper functions are modelled semantically (cover = positions with bit i set) and compared exhaustively for k<=128; CSR shims; Nat<->bit-list glue of the driver.",
    technique="Lean 4 proof (XOR linearity over positions, all n) + exhaustive flip correspondence against the real encoder/decoder/port in Migen",
    design="§6 C15"),
+ "C16": dict(
+   text="Lean theorems (exact arithmetic, all datasheet values, all clocks, all rates): the margin formula covers the datasheet ns value on the least favourable phases and is tight, ck counts are spanned, max of both is honoured, tRC covers tRP+tRAS, the refresh interval is never longer than the datasheet's. Model tied to SDRAMModule(...).timing_settings for every class of the library x speedgrade x rate x fine-refresh mode x dense frequency grid, and to SPD-built modules (independent JEDEC decode of the SPD bytes).",
+   note="Trusted: Lean kernel; datasheet numbers read from the class attributes as exact decimals; integer-Hz clocks; float slack accepted only on the safe side when the exact quotient is within 1e-9 of an integer.",
+   technique="Lean 4 proof (ceil/floor arithmetic over exact rationals) + exhaustive-library x dense-grid correspondence with modules.py",
+   design="§6 C16"),
+ "C20": dict(
+   text="Lean theorems: for every DFI phase value (all address/bank bits, all command codes, masked or not, sync done or not) the LPDDR4 and the LPDDR5 adapter outputs decode, by JEDEC truth-table decoders written from the standards, to exactly the requested operation/bank/row/column/AP/AB/MR operands, valid iff there is one; truth tables are regenerated from the source on every run and the proofs re-checked against them. The LPDDR4 command pipeline (bit-slips, overlap masks) is modelled cycle-accurately; a pin-level stream monitor states placement-at-slot and only-overlaps-suppressed.",
+   note="Trusted: Lean kernel; JEDEC decoders in Spec/JedecLpddr4.lean, Spec/JedecLpddr5.lean and the DFI conventions in Spec/LpddrExpect.lean; table translator; the pipeline placement/suppression claim is checked by the Lean stream monitor on implementation traces and by co-simulation, its unbounded theorem is proved for the model in Props/C20 where stated; LPDDR5PHY's PipeValid command path is modelled, not co-simulated.",
+   technique="Lean 4 proof over generated truth tables (round trip through JEDEC decoders) + exhaustive-by-class correspondence of adapters and command pipeline in Migen",
+   design="§6 C20"),
  "C06": dict(
    text="Lean theorems over the parametric address-map model for every geometry satisfying WF: left and right inverse (injective, onto), A10 never a column bit, row part, consecutive walk; model tied to the real crossbar routing and _AddressSlicer by exhaustive (small geometries) and dense evaluation in Migen's simulator.",
    note="Trusted: Lean kernel, Spec (Loc/addrOf/encodeCol in Props/C06.lean), correspondence harness; the steerer's rank/bank split is replicated in the harness and re-observed end-to-end by C01/C02 whole-core runs.",
